@@ -5,6 +5,9 @@ shapes the analyser uses are rewritten by RULE (no per-site text), on the extrac
     RECV.map(|P| B)                 ->  match RECV { Some(P) => Some(B), None => None }
     RECV.and_then(|P| B)            ->  match RECV { Some(P) => B, None => None }
     RECV.map_or_else(|| A, |P| B)   ->  match RECV { Some(P) => B, None => A }
+    RECV.map_or(D, |P| B)           ->  match RECV { Some(P) => B, None => D }        (D a plain value)
+    RECV.is_some_and(|P| B)         ->  match RECV { Some(P) => B, None => false }
+    RECV.unwrap_or_else(|| A)       ->  match RECV { Some(x) => x, None => A }
     RECV.map(Enum::Variant)         ->  match RECV { Some(oq3_x) => Some(Enum::Variant(oq3_x)), None => None }
   Iterator receiver (the call is followed by `.collect()` / `.collect::<..>()`)
     RECV.map(|P| B).collect()       ->  { let mut oq3_itK = RECV; let mut oq3_vK = Vec::new();
@@ -23,8 +26,8 @@ import re
 
 from .rustsrc import RustFile
 
-METHODS = ('map', 'and_then', 'filter_map', 'map_or_else')
-_CALL = re.compile(r'\.\s*(map|and_then|filter_map|map_or_else)\s*\(\s*\|')
+METHODS = ('map', 'and_then', 'filter_map', 'map_or_else', 'map_or', 'is_some_and', 'unwrap_or_else')
+_CALL = re.compile(r'\.\s*(map_or_else|map_or|map|and_then|filter_map|is_some_and|unwrap_or_else)\s*\(\s*(?:\||[^()|]*,\s*\|)')
 _MAP_PATH = re.compile(r'\.\s*map\s*\(\s*([A-Z][A-Za-z0-9_]*(?:::[A-Za-z_][A-Za-z0-9_]*)+)\s*\)')
 _COLLECT = re.compile(r'\s*\.\s*collect\s*(::\s*<\s*Vec\s*<\s*_\s*>\s*>)?\s*\(\s*\)')
 
@@ -189,7 +192,39 @@ def desugar_closures(text):
             recv0 = _recv_start(text, code, dot)
             recv = text[recv0:dot].rstrip()
             mc = _COLLECT.match(text, pc + 1)
-            if meth == 'map_or_else':
+            if meth == 'map_or':
+                # RECV.map_or(D, |P| B)  ->  match RECV { Some(P) => B, None => D }   (D is evaluated eagerly by map_or: only
+                # rewritten when D is a path / literal, whose evaluation has no effect)
+                if len(args) != 2 or mc:
+                    raise NoRule('map_or shape')
+                dflt = text[args[0][0]:args[0][1]].strip()
+                if not re.match(r'^[\w:.]+$', dflt):
+                    raise NoRule('map_or default is not a plain value')
+                p1, b_body = _closure(text, code, *args[1])
+                if p1 is None:
+                    raise NoRule('map_or closure')
+                new = 'match %s { Some(%s) => %s, None => %s }' % (recv, p1, b_body, dflt)
+                end = pc + 1
+                rule = 'D3 Option::map_or'
+            elif meth == 'is_some_and':
+                if len(args) != 1 or mc:
+                    raise NoRule('is_some_and shape')
+                p1, b_body = _closure(text, code, *args[0])
+                if p1 is None:
+                    raise NoRule('is_some_and closure')
+                new = 'match %s { Some(%s) => %s, None => false }' % (recv, p1, b_body)
+                end = pc + 1
+                rule = 'D3 Option::is_some_and'
+            elif meth == 'unwrap_or_else':
+                if len(args) != 1 or mc:
+                    raise NoRule('unwrap_or_else shape')
+                p0, a_body = _closure(text, code, *args[0])
+                if p0 is not None:
+                    raise NoRule('unwrap_or_else closure takes a parameter (Result?)')
+                new = 'match %s { Some(oq3_x) => oq3_x, None => %s }' % (recv, a_body)
+                end = pc + 1
+                rule = 'D3 Option::unwrap_or_else'
+            elif meth == 'map_or_else':
                 if len(args) != 2 or mc:
                     raise NoRule('map_or_else shape')
                 p0, a_body = _closure(text, code, *args[0])
